@@ -36,8 +36,10 @@ CONSTANTS
   Membership,     \* dynamicMembershipChange
   CompactMin,     \* logCompactionMinEntries
   SnapChunk,      \* logCompactionBatchSize (bytes per snapshot chunk)
+  Raisers,        \* ids of regular commands whose replicated method raises when executed (on every replica)
   SpecialCids,    \* callback ids of submissions that are not regular commands (membership, version)
-  InitConnected   \* start from a fully connected mesh (saves depth in exhaustive runs)
+  InitConnected,  \* start from a fully connected mesh (saves depth in exhaustive runs)
+  Isolated0       \* ... except these nodes, which start connected to nobody
 
 VARIABLES
   node,           \* node[n] : record, see InitNode
@@ -45,9 +47,10 @@ VARIABLES
   alive,          \* set of {i,j}: the physical connection exists
   up,             \* set of <<i,j>>: endpoint i has j registered as connected (send returns True)
   cbs,            \* command id -> sequence of <<result, error>> : callbacks fired so far
-  nexc            \* number of exceptions that escaped an entry point
+  nexc,           \* number of exceptions that escaped an entry point
+  snaps           \* snapshot id -> content [size, last, prev, hist, cluster, ver] of every snapshot ever serialized
 
-vars == <<node, chan, alive, up, cbs, nexc>>
+vars == <<node, chan, alive, up, cbs, nexc, snaps>>
 
 -----------------------------------------------------------------------------
 (* FAIL_REASON *)
@@ -61,6 +64,8 @@ Max(a, b) == IF a > b THEN a ELSE b
 Min(a, b) == IF a < b THEN a ELSE b
 Last(q) == q[Len(q)]
 SeqToSet(q) == {q[k] : k \in 1..Len(q)}
+RemoveKey(f, k) == [q \in DOMAIN f \ {k} |-> f[q]]
+SetKey(f, k, v) == [q \in DOMAIN f \cup {k} |-> IF q = k THEN v ELSE f[q]]
 
 LastIdx(s)  == Last(s.log).idx
 LastTerm(s) == Last(s.log).term
@@ -78,28 +83,40 @@ InitNode(n) ==
   [alive |-> TRUE, role |-> "F", term |-> 0, votedFor |-> Nil, votes |-> 0, leader |-> Nil,
    log |-> <<Entry(1, 0, NoopCmd, 1)>>, commit |-> 1, applied |-> 1, lci |-> -1,
    nextIdx |-> <<>>, matchIdx |-> <<>>, fresh |-> {},
-   others |-> Voters0 \ {n}, ro |-> {}, conn |-> IF InitConnected THEN Voters0 \ {n} ELSE {},
+   others |-> Voters0 \ {n}, ro |-> {},
+   conn |-> IF InitConnected /\ n \in Voters0 \ Isolated0 THEN Voters0 \ (Isolated0 \cup {n}) ELSE {},
    elDue |-> FALSE, hbDue |-> FALSE,
    queue |-> <<>>, wc |-> <<>>, wr |-> <<>>, rcnt |-> 0,
-   noopIdx |-> -1, chgIdx |-> -1, hist |-> <<>>, ver |-> 0, ready |-> FALSE]
+   noopIdx |-> -1, chgIdx |-> -1, hist |-> <<>>, ver |-> 0, ready |-> FALSE,
+   force |-> FALSE, lse |-> -1, needLoad |-> TRUE, serPid |-> 0, serId |-> 0,
+   snap |-> "none", trans |-> <<>>, incoming |-> [has |-> FALSE],
+   rocnt |-> 0, roid |-> <<>>]
 
 Init ==
-  /\ node = [n \in Nodes |-> InitNode(n)]
+  /\ node = [n \in Nodes |-> IF n \in Voters0 \cup Observers THEN InitNode(n) ELSE [alive |-> FALSE]]
   /\ chan = [i \in Nodes |-> [j \in Nodes |-> <<>>]]
-  /\ alive = IF InitConnected THEN {{i, j} : i, j \in Voters0} \ {{i} : i \in Voters0} ELSE {}
-  /\ up = IF InitConnected THEN {<<i, j>> \in Voters0 \X Voters0 : i # j} ELSE {}
+  /\ alive = IF InitConnected THEN {{i, j} : i, j \in Voters0 \ Isolated0} \ {{i} : i \in Voters0} ELSE {}
+  /\ up = IF InitConnected THEN {<<i, j>> \in (Voters0 \ Isolated0) \X (Voters0 \ Isolated0) : i # j} ELSE {}
   /\ cbs = <<>>
   /\ nexc = 0
+  /\ snaps = <<>>
 
 -----------------------------------------------------------------------------
 (* Step contexts.  x.s node record; x.out sequence of [to, msg]; x.ev sequence of fired        *)
 (* callbacks [cid, res, err]; x.exc TRUE when an exception escaped (rest of the entry point    *)
 (* is skipped).                                                                                *)
-Ctx(s) == [s |-> s, out |-> <<>>, ev |-> <<>>, exc |-> FALSE]
+(* x.cut: iterations of the append_entries send loop after which its time budget is used up; x.left: what is  *)
+(* left of it in the current invocation; x.cutHit: the budget was used up (time has passed); x.news: snapshots *)
+(* serialized in this step.                                                                                   *)
+DefaultCut == 8
+Ctx(s) == [s |-> s, out |-> <<>>, ev |-> <<>>, exc |-> FALSE, cut |-> DefaultCut, left |-> DefaultCut,
+           cutHit |-> FALSE, news |-> <<>>, ord |-> <<>>, dropped |-> {}]
 WithS(x, s) == [x EXCEPT !.s = s]
 
 (* transport.send(node, msg): appended only if this side has the peer registered *)
-Snd(x, n, to, msg) == IF <<n, to>> \in up THEN [x EXCEPT !.out = Append(@, [to |-> to, msg |-> msg])] ELSE x
+(* x.dropped: peers whose connection this node closed earlier in the same step (transport.dropNode) *)
+Snd(x, n, to, msg) == IF <<n, to>> \in up /\ to \notin x.dropped
+                      THEN [x EXCEPT !.out = Append(@, [to |-> to, msg |-> msg])] ELSE x
 
 Fire(x, cb, res, err) ==
   IF cb.k = "cb" THEN [x EXCEPT !.ev = Append(@, [cid |-> cb.cid, res |-> res, err |-> err])] ELSE x
@@ -117,6 +134,56 @@ FireAllWr(x, k) ==
 OnLeaderChanged(x) == FireAllWr(x, 1)
 
 -----------------------------------------------------------------------------
+(* dynamic membership: commands "add:<node>" / "rem:<node>" *)
+AddCmd(v) == "add:" \o v
+RemCmd(v) == "rem:" \o v
+MembReq(c) ==
+  IF \E v \in Nodes : c = AddCmd(v) THEN [k |-> "add", v |-> CHOOSE v \in Nodes : c = AddCmd(v)]
+  ELSE IF \E v \in Nodes : c = RemCmd(v) THEN [k |-> "rem", v |-> CHOOSE v \in Nodes : c = RemCmd(v)]
+  ELSE [k |-> "none"]
+IsMemb(c) == MembReq(c).k # "none"
+
+(* __doChangeCluster(request, reverse): [x, ok] *)
+DoChange(x, n, req, reverse) ==
+  LET s == x.s
+      adding == (req.k = "add") # reverse
+      v == req.v
+  IN IF adding
+     THEN IF v = n \/ v \in s.others THEN [x |-> x, ok |-> FALSE]
+          ELSE [x |-> WithS(x, [s EXCEPT !.others = @ \cup {v},
+                                         !.nextIdx = SetKey(@, v, LastIdx(s) + 1),
+                                         !.matchIdx = SetKey(@, v, 0),
+                                         !.fresh = IF s.role = "L" THEN @ \cup {v} ELSE @]),
+                ok |-> TRUE]
+     ELSE IF v = n \/ v \notin s.others THEN [x |-> x, ok |-> FALSE]
+          ELSE [x |-> [WithS(x, [s EXCEPT !.others = @ \ {v},
+                                          !.nextIdx = IF v \in DOMAIN @ THEN RemoveKey(@, v) ELSE @,
+                                          !.matchIdx = IF v \in DOMAIN @ THEN RemoveKey(@, v) ELSE @])
+                       EXCEPT !.dropped = @ \cup {v}],      \* transport.dropNode closes the connection
+                ok |-> TRUE]
+
+(* apply / roll back the membership entries of a sequence of log entries *)
+RECURSIVE ChangeAll(_, _, _, _)
+ChangeAll(x, n, es, reverse) ==
+  IF es = <<>> THEN x
+  ELSE LET e == IF reverse THEN Last(es) ELSE Head(es)
+           rest == IF reverse THEN SubSeq(es, 1, Len(es) - 1) ELSE Tail(es)
+           x1 == IF IsMemb(e.cmd) THEN DoChange(x, n, MembReq(e.cmd), reverse).x ELSE x
+       IN ChangeAll(x1, n, rest, reverse)
+
+(* __updateClusterConfiguration(newNodes) when a snapshot is loaded *)
+UpdateCluster(x, n, new) ==
+  LET s == x.s
+      rem == s.others \ new
+      add == new \ s.others
+      nx1 == [k \in DOMAIN s.nextIdx \ rem |-> s.nextIdx[k]]
+      mx1 == [k \in DOMAIN s.matchIdx \ rem |-> s.matchIdx[k]]
+      s1 == [s EXCEPT !.others = new,
+                      !.nextIdx = [k \in DOMAIN nx1 \cup add |-> IF k \in add THEN LastIdx(s) + 1 ELSE nx1[k]],
+                      !.matchIdx = [k \in DOMAIN mx1 \cup add |-> IF k \in add THEN 0 ELSE mx1[k]]]
+  IN [WithS(x, s1) EXCEPT !.dropped = @ \cup rem]
+
+-----------------------------------------------------------------------------
 (* __sendAppendEntries *)
 
 (* __getEntries(from, None, maxSizeBytes): entries until the running size reaches the budget (inclusive) *)
@@ -128,32 +195,61 @@ TakeBatch(es, k, total) ==
 AEMsg(s, ents, pi, pt) ==
   [t |-> "ae", term |-> s.term, commit |-> s.commit, prevIdx |-> pi, prevTerm |-> pt, entries |-> ents]
 
-(* the while-loop for one follower m; only the entries path (next > first index) is described here, *)
-(* the snapshot path is SnapLoop in the compaction section *)
-RECURSIVE AELoop(_, _, _, _, _)
-AELoop(x, n, m, next, single) ==
+(* Serializer.getTransmissionData(m): None while a serialization is pending or without a snapshot; otherwise  *)
+(* the next chunk (SnapChunk bytes) of the snapshot held, the empty chunk after the last byte closing the     *)
+(* transfer.                                                                                                  *)
+HasSnap(s) == s.snap \notin {"none", "garbage"}
+
+(* the while-loop for one follower m *)
+RECURSIVE AELoop(_, _, _, _, _, _)
+AELoop(x, n, m, next, single, serial) ==
   LET s == x.s IN
-  IF ~(next <= LastIdx(s) \/ single) THEN x
-  ELSE IF next > FirstIdx(s)
-  THEN LET prevOk == next - 1 <= LastIdx(s)
-           pi == IF prevOk THEN next - 1 ELSE -1
-           pt == IF prevOk THEN s.log[next - 1 - FirstIdx(s) + 1].term ELSE -1
-           all == IF next <= LastIdx(s) THEN EntriesFrom(s, next) ELSE <<>>
-           ents == IF all = <<>> THEN <<>> ELSE SubSeq(all, 1, TakeBatch(all, 1, 0))
-           nn == IF ents # <<>> THEN Last(ents).idx + 1 ELSE next
-           s1 == IF ents # <<>> THEN [s EXCEPT !.nextIdx[m] = nn] ELSE s
-           x1 == Snd(WithS(x, s1), n, m, AEMsg(s1, ents, pi, pt))
-       IN AELoop(x1, n, m, nn, FALSE)
-  ELSE x   \* snapshot path: not reachable without compaction
+  IF ~(next <= LastIdx(s) \/ single \/ serial) THEN x
+  ELSE
+   LET body ==
+    IF next > FirstIdx(s)
+    THEN LET prevOk == next - 1 <= LastIdx(s)
+             pi == IF prevOk THEN next - 1 ELSE -1
+             pt == IF prevOk THEN s.log[next - 1 - FirstIdx(s) + 1].term ELSE -1
+             all == IF next <= LastIdx(s) THEN EntriesFrom(s, next) ELSE <<>>
+             ents == IF all = <<>> THEN <<>> ELSE SubSeq(all, 1, TakeBatch(all, 1, 0))
+             nn == IF ents # <<>> THEN Last(ents).idx + 1 ELSE next
+             s1 == IF ents # <<>> THEN [s EXCEPT !.nextIdx[m] = nn] ELSE s
+         IN [x |-> Snd(WithS(x, s1), n, m, AEMsg(s1, ents, pi, pt)), next |-> nn, serial |-> FALSE]
+    ELSE \* the follower needs entries that were compacted away: snapshot chunks
+         IF s.serPid # 0 \/ ~HasSnap(s)
+         THEN [x |-> Snd(x, n, m, [t |-> "aes", term |-> s.term, commit |-> s.commit, has |-> FALSE]),
+               next |-> next, serial |-> FALSE]
+         ELSE LET off == IF m \in DOMAIN s.trans THEN s.trans[m] ELSE 0
+                  size == snaps[s.snap].size
+                  len == Min(SnapChunk, size - off)
+                  isLast == len = 0
+                  s1 == [s EXCEPT !.trans = IF isLast THEN RemoveKey(@, m) ELSE SetKey(@, m, off + len)]
+                  s2 == IF isLast THEN [s1 EXCEPT !.nextIdx[m] = s.log[2].idx + 1] ELSE s1
+                  msg == [t |-> "aes", term |-> s.term, commit |-> s.commit, has |-> TRUE,
+                          first |-> off = 0, last |-> isLast, len |-> len, sid |-> s.snap, off |-> off]
+              IN [x |-> Snd(WithS(x, s2), n, m, msg), next |-> s2.nextIdx[m], serial |-> ~isLast]
+       x1 == [body.x EXCEPT !.left = @ - 1]
+   IN IF x1.left <= 0 THEN [x1 EXCEPT !.cutHit = TRUE]          \* delta > appendEntriesPeriod: break
+      ELSE AELoop(x1, n, m, body.next, FALSE, body.serial)
 
-RECURSIVE SendAE(_, _, _)
-SendAE(x, n, todo) ==
+(* the for-loop over the set of peers: its iteration order is the hash order of a Python set, an input      *)
+(* (x.ord lists peers in the order the loop reaches them; peers not listed follow in any order)              *)
+RECURSIVE SendAE(_, _, _, _)
+SendAE(x, n, todo, ord) ==
   IF todo = {} THEN x
-  ELSE LET m == CHOOSE d \in todo : TRUE IN
-       IF m \notin x.s.conn THEN SendAE(x, n, todo \ {m})
-       ELSE SendAE(AELoop(x, n, m, x.s.nextIdx[m], TRUE), n, todo \ {m})
+  ELSE LET m == IF ord # <<>> /\ Head(ord) \in todo THEN Head(ord) ELSE CHOOSE d \in todo : TRUE
+           rest == IF ord # <<>> THEN Tail(ord) ELSE ord
+       IN IF ord # <<>> /\ Head(ord) \notin todo THEN SendAE(x, n, todo, Tail(ord))
+          ELSE IF m \notin x.s.conn
+          THEN SendAE(WithS(x, [x.s EXCEPT !.trans = IF m \in DOMAIN @ THEN RemoveKey(@, m) ELSE @]), n, todo \ {m}, rest)
+          ELSE SendAE(AELoop(x, n, m, x.s.nextIdx[m], TRUE, FALSE), n, todo \ {m}, rest)
 
-SendAppendEntries(x, n) == SendAE(WithS(x, [x.s EXCEPT !.hbDue = FALSE]), n, x.s.others \cup x.s.ro)
+(* when the budget was used up more than appendEntriesPeriod has passed: the heartbeat is due again *)
+SendAppendEntries(x, n) ==
+  LET x0 == [x EXCEPT !.s = [x.s EXCEPT !.hbDue = FALSE], !.left = x.cut, !.cutHit = FALSE]
+      x1 == SendAE(x0, n, x.s.others \cup x.s.ro, x.ord)
+  IN IF x1.cutHit THEN WithS(x1, [x1.s EXCEPT !.hbDue = TRUE]) ELSE x1
 
 (* __onBecomeLeader *)
 BecomeLeader(x, n) ==
@@ -217,23 +313,28 @@ FireSubs(x, subs, e, res) ==
 
 IsRegular(c) == c # NoopCmd
 
-ApplyOne(x, e) ==
+(* a replicated method that raises leaves the object untouched; the exception object is handed to the *)
+(* subscribers as the result (projected as -2) and the node moves on to the next entry                 *)
+ApplyOne(x, n, e) ==
   LET s == x.s
       subs == SelectSeq(s.wc, LAMBDA w : w.idx = e.idx)
       rest == SelectSeq(s.wc, LAMBDA w : w.idx # e.idx)
       s1 == [s EXCEPT !.wc = rest]
-      s2 == IF IsRegular(e.cmd) THEN [s1 EXCEPT !.hist = Append(@, <<s.applied + 1, e.cmd, 0>>)] ELSE s1
-      res == IF IsRegular(e.cmd) THEN Len(s2.hist) ELSE -1
-      x1 == FireSubs(WithS(x, s2), subs, e, res)
+      executes == IsRegular(e.cmd) /\ e.cmd \notin Raisers /\ ~IsMemb(e.cmd)
+      s2 == IF executes THEN [s1 EXCEPT !.hist = Append(@, <<s.applied + 1, e.cmd, 0>>)] ELSE s1
+      res == IF executes THEN Len(s2.hist) ELSE IF e.cmd \in Raisers THEN -2 ELSE -1
+      \* membership entries are (re)applied here too: needed after a restart, otherwise without effect
+      xm == IF IsMemb(e.cmd) THEN DoChange(WithS(x, s2), n, MembReq(e.cmd), FALSE).x ELSE WithS(x, s2)
+      x1 == FireSubs(xm, subs, e, res)
   IN WithS(x1, [x1.s EXCEPT !.applied = @ + 1])
 
-RECURSIVE ApplyLoop(_, _)
-ApplyLoop(x, es) == IF es = <<>> \/ x.exc THEN x ELSE ApplyLoop(ApplyOne(x, Head(es)), Tail(es))
+RECURSIVE ApplyLoop(_, _, _)
+ApplyLoop(x, n, es) == IF es = <<>> \/ x.exc THEN x ELSE ApplyLoop(ApplyOne(x, n, Head(es)), n, Tail(es))
 
-ApplyStep(x) ==
+ApplyStep(x, n) ==
   LET s == x.s IN
   IF s.commit > s.applied
-  THEN ApplyLoop(x, EntriesFromN(s, s.applied + 1, s.commit - s.applied))
+  THEN ApplyLoop(x, n, EntriesFromN(s, s.applied + 1, s.commit - s.applied))
   ELSE x
 
 (* commandsWaitingCommit is a dict idx -> list; the projection orders it by idx, then insertion *)
@@ -244,9 +345,15 @@ WcInsert(wc, ins) ==
 CmdrOk(rid, idx, term) == [t |-> "cmdr", rid |-> rid, idx |-> idx, term |-> term, err |-> 0]
 CmdrErr(rid, err) == [t |-> "cmdr", rid |-> rid, idx |-> 0, term |-> 0, err |-> err]
 
+(* a reply to the node a forwarded command came from.  A read-only node is known to the transport under *)
+(* the counter id of its connection (cb.ro); after it reconnected that id names nobody and send fails.   *)
+SndCb(x, n, cb, msg) ==
+  IF cb.ro = -1 THEN Snd(x, n, cb.n, msg)
+  ELSE IF cb.n \in DOMAIN x.s.roid /\ x.s.roid[cb.n] = cb.ro THEN Snd(x, n, cb.n, msg) ELSE x
+
 (* __callErrCallback *)
 ErrCallback(x, n, cb, err) ==
-  IF cb.k = "fwd" THEN Snd(x, n, cb.n, CmdrErr(cb.rid, err))
+  IF cb.k = "fwd" THEN SndCb(x, n, cb, CmdrErr(cb.rid, err))
   ELSE Fire(x, cb, -1, err)
 
 RECURSIVE QueueStep(_, _)
@@ -257,16 +364,27 @@ QueueStep(x, n) ==
            s0 == [s EXCEPT !.queue = Tail(@)]
        IN IF s.role = "L"
           THEN LET idx == LastIdx(s) + 1
-                   s1 == [s0 EXCEPT !.log = Append(@, Entry(idx, s.term, q.cmd, q.sz))]
-                   x1 == IF q.cb.k = "fwd" THEN Snd(WithS(x, s1), n, q.cb.n, CmdrOk(q.cb.rid, idx, s.term))
-                         ELSE IF q.cb.k = "cb"
-                              THEN WithS(x, [s1 EXCEPT !.wc = WcInsert(@, [idx |-> idx, term |-> s.term, cb |-> q.cb])])
-                              ELSE WithS(x, s1)
-                   x2 == IF UseBatch THEN x1 ELSE SendAppendEntries(x1, n)
-               IN QueueStep(x2, n)
+                   req == IF Membership THEN MembReq(q.cmd) ELSE [k |-> "none"]
+                   \* __changeCluster: refused before the leader's own no-op is applied and while an earlier
+                   \* change is uncommitted
+                   sg == IF s0.chgIdx # -1 /\ s0.applied >= s0.chgIdx THEN [s0 EXCEPT !.chgIdx = -1] ELSE s0
+                   gateOpen == s0.applied >= s0.noopIdx /\ sg.chgIdx = -1
+                   chg == IF req.k # "none" /\ gateOpen THEN DoChange(WithS(x, sg), n, req, FALSE)
+                          ELSE [x |-> WithS(x, IF req.k # "none" /\ s0.applied >= s0.noopIdx THEN sg ELSE s0), ok |-> FALSE]
+               IN IF req.k = "none" \/ chg.ok
+                  THEN LET xb == IF req.k = "none" THEN WithS(x, s0) ELSE chg.x
+                           s1 == [xb.s EXCEPT !.log = Append(@, Entry(idx, s.term, q.cmd, q.sz)),
+                                              !.chgIdx = IF req.k # "none" THEN idx ELSE @]
+                           x1 == IF q.cb.k = "fwd" THEN SndCb(WithS(xb, s1), n, q.cb, CmdrOk(q.cb.rid, idx, s.term))
+                                 ELSE IF q.cb.k = "cb"
+                                      THEN WithS(xb, [s1 EXCEPT !.wc = WcInsert(@, [idx |-> idx, term |-> s.term, cb |-> q.cb])])
+                                      ELSE WithS(xb, s1)
+                           x2 == IF UseBatch THEN x1 ELSE SendAppendEntries(x1, n)
+                       IN QueueStep(x2, n)
+                  ELSE QueueStep(ErrCallback(chg.x, n, q.cb, REQUEST_DENIED), n)
           ELSE IF s.leader # Nil
           THEN IF q.cb.k = "fwd"
-               THEN QueueStep(Snd(WithS(x, s0), n, q.cb.n, CmdrErr(q.cb.rid, NOT_LEADER)), n)
+               THEN QueueStep(SndCb(WithS(x, s0), n, q.cb, CmdrErr(q.cb.rid, NOT_LEADER)), n)
                ELSE IF q.cb.k = "cb"
                     THEN LET s1 == [s0 EXCEPT !.rcnt = @ + 1,
                                               !.wr = Append(@, [rid |-> s.rcnt + 1, cb |-> q.cb])]
@@ -276,21 +394,44 @@ QueueStep(x, n) ==
                                        [t |-> "cmd", cmd |-> q.cmd, sz |-> q.sz, rid |-> 0]), n)
           ELSE QueueStep(ErrCallback(WithS(x, s0), n, q.cb, MISSING_LEADER), n)
 
-TickCtx(n, adv) ==
+(* __tryLogCompaction (serializer in memory, or to a file without fork: serialization completes inside the   *)
+(* call and is acknowledged by checkSerializing on the next tick).  orc = [sid, size]: identity and byte size *)
+(* of the blob a serialization in this step produces (an input: gzip/pickle are not modelled).               *)
+DeleteTo(s, toIdx) == IF toIdx - FirstIdx(s) < 0 THEN s.log ELSE SubSeq(s.log, toIdx - FirstIdx(s) + 1, Len(s.log))
+
+CompactStep(x, n, orc) ==
+  LET s == x.s
+      st == IF s.serPid = -1 THEN "SUCCESS" ELSE IF s.serPid = -2 THEN "FAILED" ELSE "NOT"
+      s1 == IF st # "NOT" THEN [s EXCEPT !.serPid = 0, !.trans = <<>>] ELSE s
+      s2 == IF st = "SUCCESS" THEN [s1 EXCEPT !.log = DeleteTo(s1, s1.serId), !.lse = s1.serId] ELSE s1
+  IN IF st # "NOT" THEN WithS(x, s2)
+     ELSE IF Len(s2.log) <= CompactMin /\ ~s2.force THEN WithS(x, s2)
+     ELSE LET s3 == [s2 EXCEPT !.force = FALSE]
+              la == EntriesFromN(s3, s3.applied - 1, 2)
+          IN IF Len(la) < 2 \/ la[1].idx = s3.lse THEN WithS(x, s3)
+             ELSE LET content == [size |-> orc.size, last |-> la[2], prev |-> la[1], hist |-> s3.hist,
+                                  cluster |-> s3.others \cup (IF n \in Observers THEN {} ELSE {n}), ver |-> s3.ver]
+                      s4 == [s3 EXCEPT !.serId = la[1].idx, !.snap = orc.sid, !.serPid = -1]
+                  IN [WithS(x, s4) EXCEPT !.news = Append(@, [sid |-> orc.sid, content |-> content])]
+
+TickCtx(n, adv, cut, orc, ord) ==
   LET s0 == node[n]
       sA == [s0 EXCEPT !.elDue = @ \/ adv = "j",
                        !.hbDue = s0.role = "L" /\ (@ \/ adv # "z"),
-                       !.fresh = IF adv \in {"m", "j"} THEN {} ELSE @]
-      x1 == ElectionStep(Ctx(sA), n)
+                       !.fresh = IF adv \in {"m", "j"} THEN {} ELSE @,
+                       !.needLoad = FALSE]
+      x0 == [Ctx(sA) EXCEPT !.cut = cut, !.left = cut, !.ord = ord]
+      x1 == IF n \in Observers THEN x0 ELSE ElectionStep(x0, n)
       x2 == LeaderStep(x1, n)
-      x3 == ApplyStep(x2)
+      x3 == ApplyStep(x2, n)
       needSend == (~UseBatch) /\ x2.s.commit > x2.s.applied
       x4 == IF x3.exc THEN x3
             ELSE IF x3.s.role = "L" /\ (x3.s.hbDue \/ needSend) THEN SendAppendEntries(x3, n) ELSE x3
       x5 == IF x4.exc THEN x4
             ELSE IF ~x4.s.ready /\ x4.s.applied = x4.s.lci THEN WithS(x4, [x4.s EXCEPT !.ready = TRUE]) ELSE x4
       x6 == IF x5.exc THEN x5 ELSE QueueStep(x5, n)
-  IN x6
+      x7 == IF x6.exc THEN x6 ELSE CompactStep(x6, n, orc)
+  IN x7
 
 -----------------------------------------------------------------------------
 (* __onMessageReceived *)
@@ -331,18 +472,67 @@ OnAppendEntries(x, n, from, m) ==
                         /\ \A q \in 1..k : existing[q].term = m.entries[q].term
                         /\ (k < Min(Len(existing), Len(m.entries)) => existing[k + 1].term # m.entries[k + 1].term)
                 toAdd == SubSeq(m.entries, nm + 1, Len(m.entries))
-                kept == IF toAdd # <<>> /\ nm < Len(existing)
-                        THEN SubSeq(s1.log, 1, m.prevIdx - FirstIdx(s1) + 1 + nm) ELSE s1.log
-                s2 == [s1 EXCEPT !.log = kept \o toAdd]
+                trunc == toAdd # <<>> /\ nm < Len(existing)
+                \* membership entries take effect when appended and are rolled back when truncated
+                xr == IF trunc /\ Membership THEN ChangeAll(WithS(xa, s1), n, SubSeq(existing, nm + 1, Len(existing)), TRUE)
+                      ELSE WithS(xa, s1)
+                kept == IF trunc THEN SubSeq(xr.s.log, 1, m.prevIdx - FirstIdx(xr.s) + 1 + nm) ELSE xr.s.log
+                s2 == [xr.s EXCEPT !.log = kept \o toAdd]
+                xc == IF Membership THEN ChangeAll(WithS(xr, s2), n, toAdd, FALSE) ELSE WithS(xr, s2)
                 nxt == IF m.entries # <<>> THEN Last(m.entries).idx + 1 ELSE m.prevIdx + 1
                 \* only the entries up to the last one of this message are known to match the leader's log
                 nc == Min(m.commit, nxt - 1)
-                s3 == IF nc > s2.commit THEN [s2 EXCEPT !.commit = nc] ELSE s2
-            IN Snd(WithS(xa, s3), n, from, NNI(nxt, FALSE, TRUE))
+                s3 == IF nc > xc.s.commit THEN [xc.s EXCEPT !.commit = nc] ELSE xc.s
+            IN Snd(WithS(xc, s3), n, from, NNI(nxt, FALSE, TRUE))
+
+(* append_entries carrying a snapshot chunk ('serialized'), or nothing at all while the leader has no data *)
+WellFormed(chunks) ==
+  /\ chunks # <<>>
+  /\ \A k \in 1..Len(chunks) : chunks[k].sid = chunks[1].sid
+  /\ chunks[1].sid \in DOMAIN snaps
+  /\ chunks[1].off = 0
+  /\ \A k \in 1..(Len(chunks) - 1) : chunks[k + 1].off = chunks[k].off + chunks[k].len
+  /\ Last(chunks).off + Last(chunks).len = snaps[chunks[1].sid].size
+
+(* __loadDumpFile(clearJournal = TRUE) of the snapshot held; an unreadable blob leaves everything as it was *)
+LoadSnapshot(x, n) ==
+  LET s == x.s IN
+  IF ~HasSnap(s) THEN x
+  ELSE LET c == snaps[s.snap]
+           s1 == [s EXCEPT !.hist = c.hist, !.ver = c.ver, !.log = <<c.prev, c.last>>, !.applied = c.last.idx]
+       IN IF Membership THEN UpdateCluster(WithS(x, s1), n, c.cluster \ {n}) ELSE WithS(x, s1)
+
+OnSnapshotChunk(x, n, from, m) ==
+  LET s0 == x.s IN
+  IF m.term < s0.term THEN x
+  ELSE
+    LET xa == IF s0.leader # from THEN OnLeaderChanged(x) ELSE x
+        sa == xa.s
+        s1 == [sa EXCEPT !.elDue = FALSE, !.leader = from, !.term = m.term,
+                         !.votedFor = IF m.term > s0.term THEN Nil ELSE @,
+                         !.role = "F", !.lci = m.commit, !.fresh = {}, !.hbDue = FALSE]
+        chunk == [sid |-> m.sid, off |-> m.off, len |-> m.len]
+        \* Serializer.setTransmissionData
+        accept == m.has /\ (m.first \/ s1.incoming.has)
+        buf == IF ~accept THEN <<>> ELSE IF m.first THEN <<chunk>> ELSE Append(s1.incoming.chunks, chunk)
+        done == accept /\ m.last
+        s2 == IF ~accept THEN s1
+              ELSE IF done THEN [s1 EXCEPT !.incoming = [has |-> FALSE],
+                                           !.snap = IF WellFormed(buf) THEN buf[1].sid ELSE "garbage"]
+              ELSE [s1 EXCEPT !.incoming = [has |-> TRUE, known |-> TRUE, chunks |-> buf]]
+        xl == IF done THEN LoadSnapshot(WithS(xa, s2), n) ELSE WithS(xa, s2)
+        s3 == xl.s
+        xb == IF done THEN Snd(xl, n, from, NNI(LastIdx(s3) + 1, FALSE, TRUE)) ELSE xl
+        s4 == xb.s
+        \* a completely installed snapshot is committed state; a partial chunk does not move the commit index
+        s5 == IF done /\ s4.applied > s4.commit THEN [s4 EXCEPT !.commit = s4.applied] ELSE s4
+    IN WithS(xb, s5)
 
 OnCmd(x, n, from, m) ==
   LET s == x.s
-      cb == IF m.rid # 0 THEN [k |-> "fwd", n |-> from, rid |-> m.rid] ELSE [k |-> "none"]
+      cb == IF m.rid # 0 THEN [k |-> "fwd", n |-> from, rid |-> m.rid,
+                               ro |-> IF from \in DOMAIN s.roid THEN s.roid[from] ELSE -1]
+            ELSE [k |-> "none"]
   IN IF Len(s.queue) > QueueSize
      THEN ErrCallback(x, n, cb, QUEUE_FULL)
      ELSE WithS(x, [s EXCEPT !.queue = Append(@, [cmd |-> m.cmd, sz |-> m.sz, cb |-> cb])])
@@ -373,10 +563,11 @@ OnNextNodeIdx(x, n, from, m) ==
                  ELSE s1
        IN WithS(x, [s2 EXCEPT !.fresh = @ \cup {from}])
 
-MsgCtx(n, from, m) ==
-  LET x == Ctx(node[n]) IN
-  CASE m.t = "rv"   -> IF n \in Voters0 THEN OnRequestVote(x, n, from, m) ELSE x
+MsgCtx(n, from, m, ord) ==
+  LET x == [Ctx(node[n]) EXCEPT !.ord = ord] IN
+  CASE m.t = "rv"   -> IF n \notin Observers THEN OnRequestVote(x, n, from, m) ELSE x
     [] m.t = "ae"   -> OnAppendEntries(x, n, from, m)
+    [] m.t = "aes"  -> OnSnapshotChunk(x, n, from, m)
     [] m.t = "vote" -> OnVote(x, n, from, m)
     [] m.t = "nni"  -> OnNextNodeIdx(x, n, from, m)
     [] m.t = "cmd"  -> OnCmd(x, n, from, m)
@@ -400,75 +591,141 @@ ApplyEv(c, ev) ==
            c1 == [k \in DOMAIN c \cup {e.cid} |-> IF k = e.cid THEN Append(cur, <<e.res, e.err>>) ELSE c[k]]
        IN ApplyEv(c1, Tail(ev))
 
+AddSnaps(sn, news) ==
+  [k \in DOMAIN sn \cup {news[q].sid : q \in 1..Len(news)} |->
+     IF k \in DOMAIN sn THEN sn[k] ELSE news[CHOOSE q \in 1..Len(news) : news[q].sid = k].content]
+
+(* connections closed by transport.dropNode in this step: gone at once on this side, in-flight data lost *)
+ExpAlive(n, x, al) == al \ {{n, d} : d \in x.dropped}
+ExpUp(n, x) == up \ {<<n, d>> : d \in x.dropped}
+ExpChan(n, x, ch, al) ==
+  LET ch1 == Flush(ch, al, n, x.out) IN
+  [i \in Nodes |-> [j \in Nodes |->
+     IF (i = n /\ j \in x.dropped) \/ (j = n /\ i \in x.dropped) THEN <<>> ELSE ch1[i][j]]]
+
 Commit(n, x, ch, al) ==
   /\ node' = [node EXCEPT ![n] = x.s]
-  /\ chan' = Flush(ch, al, n, x.out)
+  /\ chan' = ExpChan(n, x, ch, al)
+  /\ alive' = ExpAlive(n, x, al)
+  /\ up' = ExpUp(n, x)
   /\ cbs' = ApplyEv(cbs, x.ev)
   /\ nexc' = IF x.exc THEN nexc + 1 ELSE nexc
+  /\ snaps' = AddSnaps(snaps, x.news)
 
 -----------------------------------------------------------------------------
 (* actions *)
 Advs == {"z", "h", "m", "j"}
 
-Tick(n, adv) ==
+Tick(n, adv, cut, orc, ord) ==
   /\ node[n].alive
-  /\ Commit(n, TickCtx(n, adv), chan, alive)
-  /\ UNCHANGED <<alive, up>>
+  /\ Commit(n, TickCtx(n, adv, cut, orc, ord), chan, alive)
+
+(* forceLogCompaction() *)
+Compact(n) ==
+  /\ node[n].alive
+  /\ node' = [node EXCEPT ![n].force = TRUE]
+  /\ UNCHANGED <<chan, alive, up, cbs, nexc, snaps>>
 
 (* first message on a new incoming connection: the acceptor binds it to the member *)
 Hello(i, j) ==
-  IF i \in node[j].others
+  IF i \in Observers
+  THEN \* 'readonly': the transport invents a node id from a counter and reports a read-only node
+       /\ up' = up \cup {<<j, i>>}
+       /\ node' = [node EXCEPT ![j] = [@ EXCEPT !.ro = @ \cup {i}, !.conn = @ \cup {i},
+                                             !.nextIdx = SetKey(@, i, LastIdx(node[j]) + 1),
+                                             !.matchIdx = SetKey(@, i, 0),
+                                             !.roid = SetKey(@, i, node[j].rocnt), !.rocnt = @ + 1]]
+       /\ chan' = [chan EXCEPT ![i][j] = Tail(@)]
+       /\ UNCHANGED <<alive, cbs, nexc, snaps>>
+  ELSE IF i \in node[j].others
   THEN /\ up' = up \cup {<<j, i>>}
        /\ node' = [node EXCEPT ![j].conn = @ \cup {i}]
        /\ chan' = [chan EXCEPT ![i][j] = Tail(@)]
-       /\ UNCHANGED <<alive, cbs, nexc>>
+       /\ UNCHANGED <<alive, cbs, nexc, snaps>>
   ELSE \* unknown address: the acceptor closes the connection
        /\ up' = up \ {<<j, i>>}
        /\ alive' = alive \ {{i, j}}
        /\ chan' = [chan EXCEPT ![i][j] = <<>>, ![j][i] = <<>>]
-       /\ UNCHANGED <<node, cbs, nexc>>
+       /\ UNCHANGED <<node, cbs, nexc, snaps>>
 
 Deliver(i, j) ==
   /\ chan[i][j] # <<>>
   /\ node[j].alive
   /\ LET m == Head(chan[i][j]) IN
      IF m.t = "hello" THEN Hello(i, j)
-     ELSE /\ Commit(j, MsgCtx(j, i, m), [chan EXCEPT ![i][j] = Tail(@)], alive)
-          /\ UNCHANGED <<alive, up>>
+     ELSE IF i \notin node[j].others \cup node[j].ro
+          THEN \* a connection that the transport no longer associates with a member: nothing is delivered
+               /\ chan' = [chan EXCEPT ![i][j] = Tail(@)] /\ UNCHANGED <<node, alive, up, cbs, nexc, snaps>>
+          ELSE Commit(j, MsgCtx(j, i, m, <<>>), [chan EXCEPT ![i][j] = Tail(@)], alive)
 
 CbOf(c, wantCb) == IF wantCb THEN [k |-> "cb", cid |-> c] ELSE [k |-> "none"]
 
-(* a replicated call: _applyCommand puts (command, callback) into the queue, or QUEUE_FULL *)
-SubmitOp(n, c, z, wantCb) ==
+(* a replicated call: _applyCommand puts (command, callback) into the queue, or QUEUE_FULL.  cid names the  *)
+(* callback, cmd the command (they differ for membership / version requests).                               *)
+SubmitCtx(n, cid, cmd, z, wantCb) ==
+  LET s == node[n]
+      cb == CbOf(cid, wantCb)
+  IN IF Len(s.queue) > QueueSize THEN Fire(Ctx(s), cb, -1, QUEUE_FULL)
+     ELSE Ctx([s EXCEPT !.queue = Append(@, [cmd |-> cmd, sz |-> z, cb |-> cb])])
+
+SubmitCmd(n, cid, cmd, z, wantCb) ==
+  /\ node[n].alive
+  /\ Commit(n, SubmitCtx(n, cid, cmd, z, wantCb), chan, alive)
+
+SubmitOp(n, c, z, wantCb) == SubmitCmd(n, c, c, z, wantCb)
+
+(* an operator starts a node that is not running (a spare that is being added, or a removed / crashed node *)
+(* returning as a fresh empty process) with the member list `members`                                      *)
+StartFresh(n, members) ==
+  /\ ~node[n].alive
+  /\ node' = [node EXCEPT ![n] = [InitNode(n) EXCEPT !.others = members \ {n}, !.conn = {}]]
+  /\ UNCHANGED <<chan, alive, up, cbs, nexc, snaps>>
+
+(* a process is stopped: its connections die (the peers notice on their own), its memory is gone *)
+Stop(n) ==
+  /\ node[n].alive
+  /\ node' = [node EXCEPT ![n] = [alive |-> FALSE]]
+  /\ alive' = {p \in alive : n \notin p}
+  /\ up' = {u \in up : u[1] # n}
+  /\ chan' = [i \in Nodes |-> [j \in Nodes |-> IF i = n \/ j = n THEN <<>> ELSE chan[i][j]]]
+  /\ UNCHANGED <<cbs, nexc, snaps>>
+
+SubmitOpOld(n, c, z, wantCb) ==
   /\ node[n].alive
   /\ LET s == node[n]
          cb == CbOf(c, wantCb)
          x == IF Len(s.queue) > QueueSize THEN Fire(Ctx(s), cb, -1, QUEUE_FULL)
               ELSE Ctx([s EXCEPT !.queue = Append(@, [cmd |-> c, sz |-> z, cb |-> cb])])
      IN Commit(n, x, chan, alive)
-  /\ UNCHANGED <<alive, up>>
 
 Break(i, j) ==
   /\ {i, j} \in alive
   /\ alive' = alive \ {{i, j}}
   /\ chan' = [chan EXCEPT ![i][j] = <<>>, ![j][i] = <<>>]
-  /\ UNCHANGED <<node, up, cbs, nexc>>
+  /\ UNCHANGED <<node, up, cbs, nexc, snaps>>
 
 Notice(i, j) ==
   /\ <<i, j>> \in up /\ {i, j} \notin alive /\ node[i].alive
   /\ up' = up \ {<<i, j>>}
-  /\ node' = [node EXCEPT ![i].conn = @ \ {j}]
-  /\ UNCHANGED <<chan, alive, cbs, nexc>>
+  /\ node' = IF j \in Observers
+             THEN \* __onReadonlyNodeDisconnected
+                  [node EXCEPT ![i] = [@ EXCEPT !.ro = @ \ {j}, !.conn = @ \ {j},
+                                               !.nextIdx = IF j \in DOMAIN @ THEN RemoveKey(@, j) ELSE @,
+                                               !.matchIdx = IF j \in DOMAIN @ THEN RemoveKey(@, j) ELSE @,
+                                               !.roid = IF j \in DOMAIN @ THEN RemoveKey(@, j) ELSE @]]
+             ELSE [node EXCEPT ![i].conn = @ \ {j}]
+  /\ UNCHANGED <<chan, alive, cbs, nexc, snaps>>
 
 (* i dials j: i's side is connected at once, j's side when the hello arrives *)
 Connect(i, j) ==
   /\ i # j /\ node[i].alive /\ node[j].alive
   /\ {i, j} \notin alive /\ <<i, j>> \notin up
-  /\ j \in node[i].others
+  /\ j \in node[i].others /\ j \notin Observers
+  /\ (i \in Observers) => <<j, i>> \notin up
   /\ alive' = alive \cup {{i, j}}
   /\ up' = up \cup {<<i, j>>}
   /\ chan' = [chan EXCEPT ![i][j] = <<[t |-> "hello"]>>, ![j][i] = <<>>]
   /\ node' = [node EXCEPT ![i].conn = @ \cup {j}]
-  /\ UNCHANGED <<cbs, nexc>>
+  /\ UNCHANGED <<cbs, nexc, snaps>>
 
 =============================================================================
